@@ -311,6 +311,12 @@ func scanRefs(r *runner, it *reftable.Iterator) ([]refOut, error) {
 			return out, err
 		}
 		if !ok {
+			// the end is stable: asking again neither yields a record nor fails
+			for k := 0; k < 2; k++ {
+				if ok2, err2 := it.NextRef(&rec); ok2 || err2 != nil {
+					return out, fmt.Errorf("iterator yields after its end: ok=%v err=%v", ok2, err2)
+				}
+			}
 			return out, nil
 		}
 		out = append(out, r.refFromRec(&rec))
@@ -329,6 +335,12 @@ func scanLogs(r *runner, it *reftable.Iterator) ([]logOut, error) {
 			return out, err
 		}
 		if !ok {
+			// the end is stable: asking again neither yields a record nor fails
+			for k := 0; k < 2; k++ {
+				if ok2, err2 := it.NextLog(&rec); ok2 || err2 != nil {
+					return out, fmt.Errorf("iterator yields after its end: ok=%v err=%v", ok2, err2)
+				}
+			}
 			return out, nil
 		}
 		out = append(out, r.logFromRec(&rec))
